@@ -225,6 +225,38 @@ fn run(ctx: &Ctx) -> Part {
         acc.states += 1;
     }
 
+    // ---- fine scale on the real transports (byte-level SPI incl. buffers that are not a multiple of the
+    // pixel size, strobe-level parallel): all streams of length <= 3 plus rasters larger than the buffer
+    for tr in [Transport::Spi { len: 3 }, Transport::Spi { len: 5 }, Transport::Par8, Transport::Par16] {
+        let cfg = Cfg::tiny(4, 3, false, tr, (3, 3, 1, 0), 3);
+        let (lw, lh) = cfg.geo().lsize();
+        let nsym = (lw * lh) as u64 * 2;
+        let sym = |s: u64| -> (i32, i32, u32) {
+            let p = s / 2;
+            ((p % lw as u64) as i32, (p / lw as u64) as i32, if s % 2 == 0 { 0x1357 } else { 0x2468 })
+        };
+        let firsts: Vec<u64> = (0..nsym).collect();
+        let a = firsts
+            .par_iter()
+            .fold(Acc::new, |mut acc, &a| {
+                check_stream(ctx, &mut acc, &cfg, Pixels::List(vec![sym(a)]), true);
+                for b in 0..nsym {
+                    check_stream(ctx, &mut acc, &cfg, Pixels::List(vec![sym(a), sym(b)]), false);
+                    for c in 0..nsym {
+                        check_stream(ctx, &mut acc, &cfg, Pixels::List(vec![sym(a), sym(b), sym(c)]), false);
+                    }
+                }
+                acc
+            })
+            .reduce(Acc::new, Acc::merge);
+        acc = acc.merge(a);
+        for (w, h) in [(3u32, 3u32), (2, 3), (3, 1), (1, 3)] {
+            check_stream(ctx, &mut acc, &cfg, Pixels::Syms { syms: vec![Sym::Block { x: 0, y: 0, w, h }], base: 0x700 }, true);
+        }
+        acc.states += 1;
+        acc.count("real_transport_configs", 1);
+    }
+
     // ---- coarse scale ------------------------------------------------------------------------------
     let maxw = if quick { 3 } else { 4 };
     // (wide alphabet?, configuration): also rotated displays whose logical width exceeds the panel's
